@@ -265,6 +265,7 @@ def analyse_loop(cx, b, loop):
     colls = sorted({e.coll for e in evs})
     grown = {coll_id(m) for m in grows}
     # helper calls that may grow
+    helper_grows = []
     for m in b.mutations():
         if m.bb in blocks and m.kind == 'call' and m.raw in cx.facts.bodies:
             from .evaluators import write_summary
@@ -272,6 +273,7 @@ def analyse_loop(cx, b, loop):
             for (pi, path, cls) in write_summary(cx.facts).get(tgt.path, ()):
                 if cls in ('grow', 'assign', 'call'):
                     grown.add((m.root, m.path + path))
+                    helper_grows.append((m, (m.root, m.path + path)))
     # whole-collection reassignment inside the loop counts as growth of that local
     for l, ds in b.defs().items():
         for d in ds:
@@ -329,7 +331,7 @@ def analyse_loop(cx, b, loop):
         e = must_shrink(W)
         if not e:
             continue
-        wgrows = [m for m in grows if coll_id(m) == W]
+        wgrows = [m for m in grows if coll_id(m) == W] + [m for m, c in helper_grows if c == W]     # direct pushes and pushes made by a helper
         if not wgrows or unknown_writes(cx, b, blocks, W):
             continue
         for R in colls:
